@@ -217,13 +217,22 @@ def write_it(song):
     off_tbl = len(b)
     b += bytes(4 * (1 + len(pats)))
     smp_off = len(b)
-    sh = bytearray(b"IMPS" + b"square.smp\0\0" + bytes([0, 64, 0x11, 64]) + b"square".ljust(26, b"\0") + bytes([1, 32]))
-    lb, le = song.get('it_loop', (0, len(SAMPLE)))
-    sh += struct.pack("<IIIIIII", len(SAMPLE), lb, le, song.get('it_c5', 8363), 0, 0, 0)     # length loopbeg loopend c5 susbeg susend samplepointer(patched)
-    sh += bytes([0, 0, 0, 0])
-    b += sh
-    data_off = len(b)
-    b += SAMPLE
+    cs = song.get('it_comp_sample')     # dict(frames, wide, it215, stream): a compressed sample whose block stream is given (C19 itsex leg)
+    if cs:
+        flg = 0x01 | 0x08 | (0x02 if cs['wide'] else 0)
+        sh = bytearray(b"IMPS" + b"packed.smp\0\0" + bytes([0, 64, flg, 64]) + b"packed".ljust(26, b"\0") + bytes([0x01 | (0x04 if cs['it215'] else 0), 32]))
+        sh += struct.pack("<IIIIIII", cs['frames'], 0, 0, 8363, 0, 0, 0) + bytes(4)
+        b += sh
+        data_off = len(b)
+        b += cs['stream']
+    else:
+        sh = bytearray(b"IMPS" + b"square.smp\0\0" + bytes([0, 64, 0x11, 64]) + b"square".ljust(26, b"\0") + bytes([1, 32]))
+        lb, le = song.get('it_loop', (0, len(SAMPLE)))
+        sh += struct.pack("<IIIIIII", len(SAMPLE), lb, le, song.get('it_c5', 8363), 0, 0, 0)     # length loopbeg loopend c5 susbeg susend samplepointer(patched)
+        sh += bytes([0, 0, 0, 0])
+        b += sh
+        data_off = len(b)
+        b += SAMPLE
     struct.pack_into("<I", b, smp_off + 72, data_off)
     pat_offs = []
     for (rows, blob) in song.get('raw_patterns', ()):      # packed pattern data given as bytes (C19 pattern-codec leg)
